@@ -396,3 +396,21 @@ fn report_shutdown(reason: &eyre::Result<&str>) {
         Err(reason) => error!(%reason, "starting shutdown"),
     }
 }
+
+/// Add-only re-exports for the `verif` facade (`crate::verif`).
+#[cfg(feature = "verif")]
+pub(crate) mod verif_hooks {
+    pub(crate) use super::{
+        submission::verif_hooks::{
+            read as read_submission_state,
+            StateView,
+        },
+        write::verif_hooks::{
+            convert,
+            Batcher,
+            PayloadParts,
+            SubmissionParts,
+            MAX_PAYLOAD_SIZE_BYTES,
+        },
+    };
+}
